@@ -377,6 +377,62 @@ def run(replay=None):
         else:
             V.ok()
     samples.append({"triple": list(tjobs[0][:3]), "x": tjobs[0][4]} if tjobs else {})
+    # the tables are the CURRENT ones: the same custom symbol registered with different factor / dimension in
+    # consecutive unit environments (left through close() and through `with`); inside each the tables are read
+    # again, TLC decides the same pairs, and they are replayed there
+    try:
+        from scinumtools.units import UnitEnvironment
+        sym = "vfq"
+        rows = [({"magnitude": 3.0, "dimensions": [1, 0, -2, 0, 0, 0, 0, 0], "prefixes": ["k", "m"]}, "Gal"),
+                ({"magnitude": 0.25, "dimensions": [2, 1, -2, 0, 0, 0, 0, 0], "prefixes": ["k", "m"]}, "J"),
+                ({"magnitude": 40.0, "dimensions": [1, 0, -2, 0, 0, 0, 0, 0], "prefixes": ["k", "m"]}, "Gal")]
+        saved_tabs = replay_conv.tabs
+        for k, (row, partner) in enumerate(rows):
+            env = UnitEnvironment({sym: dict(row, dimensions=list(row["dimensions"]), prefixes=list(row["prefixes"]))})
+            try:
+                data2 = T.live()
+                wd2 = os.path.join(wd, f"env{k}"); os.makedirs(wd2, exist_ok=True)
+                T.write(wd2, data2)
+                write_mc(wd2, SUB_Q)
+                U2 = {u["name"]: i + 1 for i, u in enumerate(data2["units"])}
+                def sd(p_, u_, e_=(1, 1)):
+                    return [{"k": "u", "p": P.get(p_, 0), "u": U2[u_], "en": e_[0], "ed": e_[1]}]
+                ecases = []
+                for p_ in ("", "k", "m"):
+                    for other in ("Gal", "J", "erg", "m"):
+                        ecases.append({"a": sd(p_, sym), "b": sd("", other)})
+                        ecases.append({"a": sd("", other), "b": sd(p_, sym)})
+                    ecases.append({"a": sd(p_, sym, (2, 1)), "b": sd("", partner, (2, 1))})
+                fin2 = os.path.join(wd2, "ccases.json")
+                json.dump(ecases, open(fin2, "w"))
+                r5 = C.run_tlc(wd2, "UnitConvMC", strip_lemmas(cfg("file", devs)), env={"UCONV_IN": fin2})
+                states += r5.distinct; trans += r5.generated
+                replay_conv.tabs = A.tabs_of(data2)
+                for rec in [x for x in r5.records if "rule" in x]:
+                    rec = dict(rec, _src="custom_env", tags=list(rec["tags"]) + ["custom_unit_environment"])
+                    xs = [mags[1], mags[2], arr]
+                    ex = {"tm": [tmags[1]], "unc": []}
+                    st, failure, det, n = replay_conv((rec, xs, ex))
+                    nobs += n
+                    classes["custom_env:" + rec["rule"]] = classes.get("custom_env:" + rec["rule"], 0) + 1
+                    if st == "violation":
+                        V.fail(dict(rec, _xs=xs, _extra=ex), det.get("expected"), det.get("observed"),
+                               det["clause"] + f" :: Quantity(x, {rec['a']!r}) -> {rec['b']!r} in unit environment {k + 1} ({sym} = {row['magnitude']} {row['dimensions']})",
+                               tags=list(rec["tags"]), failure=failure)
+                    elif st == "drift":
+                        V.drift(json.dumps(det)[:300])
+                    else:
+                        V.ok()
+            finally:
+                replay_conv.tabs = saved_tabs
+                if k % 2 == 0:
+                    env.close()
+                else:
+                    env.__exit__(None, None, None)       # what leaving a `with` block does
+    except C.MachineryError:
+        raise
+    except Exception as e:
+        V.notes.append("custom unit environments could not be exercised: " + repr(e)[:160])
     unref = [x for x in table + compound + variants if x["rule"] in C04_RULES and not x["agrees"] and not x["known"]]
     if unref:
         V.notes.append(f"TLC: dispatch transcription differs from the ideal rule on {len(unref)} pair(s) outside the known deviations, e.g. {unref[0]['a']!r} -> {unref[0]['b']!r}")
@@ -393,7 +449,8 @@ def run(replay=None):
                 "0, 1, -3, 2.5e-7, 1e30, an array and Decimal values in a seeded order through the same target (the result and its kind must "
                 "not depend on what was converted before), refused pairs also with 0, -0.0 and an all-zero array, targets given as a quantity m v with "
                 "m = 1 and m != 1 (accepted: result / m; refused: source and target unchanged), sources carrying abse / rele (value = conversion "
-                "of the exact value), round trips, triples; non-trivial = distinct ordered pairs with different sides that convert, "
+                "of the exact value), round trips, triples; finally the same custom symbol registered with three different rows in consecutive "
+                "unit environments, the same pairs decided and replayed inside each; non-trivial = distinct ordered pairs with different sides that convert, "
                 "or refused pairs carrying a feature tag",
         "samples": samples, "exhaustive": True, "classes": classes, "triples": len(tjobs),
         "magnitudes": mags, "array": arr,
